@@ -191,6 +191,57 @@ def step (d : D) (t : List String) : D × String :=
       let (f, s) := WriteSnapshot d.params.cap d.st sn sg
       ({ d with st := s }, failStr f)
     | none => (d, "bad-op")
+  | "kvalidate" :: rest =>
+    match rest.reverse with
+    | fin :: revSnap =>
+      match parseSnap revSnap.reverse, parseBool fin with
+      | some (sn, _), some finalized =>
+        match allSome (sn.txs.map (aget d.pool)) with
+        | some members =>
+          let (f, s) := kernelValidate d.params sn.id (decide (sn.txs.length > 1)) finalized members d.st
+          ({ d with st := s }, match f with | none => "ok" | some .err => "reject" | some .panic => "panic")
+        | none => (d, "bad-op")
+      | _, _ => (d, "bad-op")
+    | [] => (d, "bad-op")
+  | "ksnap" :: rest =>
+    -- TopoWrite: WriteSnapshot, and a panic on an error as well
+    match parseSnap rest with
+    | some (sn, sg) =>
+      let (f, s) := WriteSnapshot d.params.cap d.st sn sg
+      ({ d with st := s }, match f with | none => "ok" | some _ => "crash")
+    | none => (d, "bad-op")
+  | "csnap" :: _n :: rest =>
+    -- queued writers: the snapshots arrive in the order in which the real writers committed
+    let rec go (fuel : Nat) (ts : List String) (st : State) (acc : List String) : Option (State × List String) :=
+      match fuel with
+      | 0 => none
+      | fuel + 1 =>
+        match ts with
+        | [] => some (st, acc.reverse)
+        | a :: b :: c :: e :: g :: h :: i :: more =>
+          match parseSnap [a, b, c, e, g, h, i] with
+          | some (sn, sg) =>
+            let (f, s) := WriteSnapshot d.params.cap st sn sg
+            go fuel more s (failStr f :: acc)
+          | none => none
+        | _ => none
+    match go (rest.length + 1) rest d.st [] with
+    | some (s, outs) => ({ d with st := s }, joinWith " " outs)
+    | none => (d, "bad-op")
+  | ["nop"] => (d, "skip")
+  | ["persist", id, fork] =>
+    match id.toNat?, parseBool fork with
+    | some id, some fork =>
+      match aget d.pool id with
+      | some tx =>
+        match LockInputs d.st tx fork with
+        | (some .err, _) => (d, "reject")
+        | (some .panic, _) => (d, "panic")
+        | (none, s1) =>
+          let (f, s2) := WriteTransaction s1 tx
+          ({ d with st := s2 }, match f with | none => "ok" | some .err => "reject" | some .panic => "panic")
+      | none => (d, "bad-op")
+    | _, _ => (d, "bad-op")
   | ["dump"] => (d, dump d)
   | ["supply"] =>
     (d, joinWith " " (d.assets.map (fun a => s!"{a}:{readTotal d.st a}:{unspent d.st a}")))
